@@ -60,8 +60,13 @@ static void phase(long ridx, TriggerVariable& tv, bool starts_active, uint64_t& 
             int form = forms[static_cast<size_t>(i)];
             uint64_t call = vrf::now();
             bool ok = true;
+            uint64_t forced0 = vrf::ctx().forced_cv_timeouts;
             if (form == 0) tv.waitActivation();
             else ok = tv.wait_forActivation(std::chrono::milliseconds(durs_ms[form + 1]));
+            // the event wakes its waiters: a timed wait that reports the event, but was only let go because every other thread
+            // had come to rest and the scheduler had to fire its time-out, slept through the notification
+            if (ok && vrf::ctx().forced_cv_timeouts != forced0)
+                vrf::violation("oracle:waiter_released_only_by_its_time_out_although_its_event_had_happened", "{\"wait\":\"wait_forActivation\"}");
             uint64_t ret = vrf::now();
             uint64_t ac = st.act_call.load(std::memory_order_relaxed), ar = st.act_ret.load(std::memory_order_relaxed);
             if (ok) {
@@ -93,8 +98,11 @@ static void phase(long ridx, TriggerVariable& tv, bool starts_active, uint64_t& 
             gate_passed.fetch_add(1, std::memory_order_relaxed);
             uint64_t call = vrf::now();
             bool ok = true;
+            uint64_t forced0 = vrf::ctx().forced_cv_timeouts;
             if (form == 0) ok = tv.wait();
             else ok = tv.wait_for(std::chrono::milliseconds(durs_ms[form + 1]));
+            if (ok && vrf::ctx().forced_cv_timeouts != forced0)
+                vrf::violation("oracle:waiter_released_only_by_its_time_out_although_its_event_had_happened", "{\"wait\":\"wait_for\"}");
             uint64_t ret = vrf::now();
             uint64_t ev_call = first_nonzero_min(st.trig_call.load(std::memory_order_relaxed), st.reset_call.load(std::memory_order_relaxed));
             uint64_t ev_ret = first_nonzero_min(st.trig_ret.load(std::memory_order_relaxed), st.reset_ret.load(std::memory_order_relaxed));
